@@ -303,6 +303,13 @@ class Run(object):
         def write_replay(key, overwrite=True):
             v = part.violations[key]
             path = os.path.join(OUT, "replays", "%s-%s.json" % (self.prop, safe(key.split("/", 1)[-1])))
+            if os.path.exists(path):
+                try:
+                    other = json.load(open(path)).get("key")
+                except Exception:
+                    other = key
+                if other != key:        # two keys that differ only in characters a file name cannot carry ("op<=" / "op>=")
+                    path = path[:-5] + "-" + hashlib.blake2b(key.encode(), digest_size=3).hexdigest() + ".json"
             if overwrite or not os.path.exists(path):
                 doc = {"property": self.prop, "key": key, "tier": self.tier, "seed": self.seed, "repo_head": head, "dirty": dirty,
                        "what": v["what"], "count": v["count"], "case": v["case"], "expected": v["expected"], "observed": v["observed"],
